@@ -294,8 +294,8 @@ var readOnlyExternal = []string{
 	"math/bits.",
 }
 
-// externalWrites returns the indices of args an external callee may write.
-func externalWrites(name string, args []ssa.Value, hasRecv bool) []int {
+// ExternalWrites returns the indices of args an external callee may write.
+func ExternalWrites(name string, args []ssa.Value, hasRecv bool) []int {
 	short := name
 	if i := strings.LastIndexByte(name, '.'); i >= 0 {
 		short = name[i+1:]
@@ -436,7 +436,7 @@ func (m *Mod) callEffects(fn *ssa.Function, instr ssa.CallInstruction, memo map[
 		name = callee.String()
 		hasRecv = callee.Signature.Recv() != nil
 	}
-	for _, i := range externalWrites(name, args, hasRecv) {
+	for _, i := range ExternalWrites(name, args, hasRecv) {
 		if i < len(args) {
 			mark(m.rootsOf(fn, args[i], memo, 0), instr.Pos())
 		}
